@@ -289,7 +289,33 @@ class Gen:
                                             bitmask=bm)
             self.features.add("bitmask-condition")
         self.features.add("classical-control")
-        return base.with_classical_controls(cond)
+        api = self.t.weighted([6, 2, 1, 1], "control-api")
+        if api == 0 or not hasattr(cirq, "If"):
+            return base.with_classical_controls(cond)
+        # cirq.If(condition, operation, *more): the same semantics spelled through the If operation, with the
+        # condition given in any of the accepted forms
+        self.features.add("if-op")
+        raw = cond
+        if isinstance(cond, cirq.KeyCondition) and cond.index == -1 and self.t.chance(1, 2, "raw-cond?"):
+            raw = key if self.t.chance(1, 2, "raw-str?") else mkey
+        elif isinstance(cond, cirq.SympyCondition) and self.t.chance(1, 2, "raw-cond?"):
+            raw = cond.expr
+        if api == 1:
+            return cirq.If(raw, base)
+        if api == 2:
+            # a body of two operations runs as one sub-circuit under the condition
+            second = self.single()
+            if second is None:
+                return cirq.If(raw, base)
+            self.features.add("if-op-body")
+            return cirq.If(raw, base, second)
+        # two conditions: both must hold; nesting an If in an If flattens to the same thing
+        key2 = self._pick(sorted(self.key_dims), "ckey-b")
+        cond2 = cirq.KeyCondition(cirq.MeasurementKey.parse_serialized(key2))
+        self.features.add("if-op-two-conditions")
+        if self.t.chance(1, 2, "nested-if?"):
+            return cirq.If(raw, cirq.If(cond2, base))
+        return cirq.If([raw, cond2], base)
 
     def subcircuit(self) -> Optional[cirq.Operation]:
         """A CircuitOperation around a tiny sub-circuit (unitaries and measurements), with tape-drawn
